@@ -1,33 +1,41 @@
-//! C11: unparse / re-parse round trip of one expression text.
-use crate::dbg::json_str;
+//! C11: unparse / re-parse round trip of one expression text (relcheck protocol).
 use super::scrub_debug;
+use crate::dbg::json_str;
 use rustpython_parser::{ast, Parse};
 
-/// {"skip":…} if the text is not an expression; {"ok":text}; or {"fail":kind,"text":…,…}
 pub fn unparse_one(src: &str) -> String {
     match ast::Expr::parse(src, "<v>") {
         Err(e) => format!("{{\"skip\":{}}}", json_str(&format!("{:?}", e.error))),
         Ok(e1) => {
             let t1 = format!("{}", e1);
+            let kind = format!("{:?}", e1);
+            let kind = kind.split('(').next().unwrap_or("").to_string();
             match ast::Expr::parse(&t1, "<u>") {
                 Err(e) => format!(
-                    "{{\"fail\":\"reparse-error\",\"text\":{},\"err\":{}}}",
-                    json_str(&t1),
-                    json_str(&format!("{:?}", e.error))
+                    "{{\"n\":1,\"fail\":[[\"rendering is not accepted by the parser\",{},{}]]}}",
+                    json_str(&format!("{} -> {:?} @{}", t1, e.error, u32::from(e.offset))),
+                    json_str("Ok")
                 ),
                 Ok(e2) => {
                     let d1 = scrub_debug(&format!("{:?}", e1), true);
                     let d2 = scrub_debug(&format!("{:?}", e2), true);
                     let t2 = format!("{}", e2);
                     if d1 != d2 {
-                        format!("{{\"fail\":\"tree-diff\",\"text\":{},\"d1\":{},\"d2\":{}}}", json_str(&t1), json_str(&d1), json_str(&d2))
+                        format!("{{\"n\":2,\"fail\":[[\"re-parsed tree differs from the original\",{},{}]]}}", json_str(&format!("{} -> {}", t1, trunc(&d2))), json_str(&trunc(&d1)))
                     } else if t1 != t2 {
-                        format!("{{\"fail\":\"not-fixpoint\",\"text\":{},\"text2\":{}}}", json_str(&t1), json_str(&t2))
+                        format!("{{\"n\":3,\"fail\":[[\"rendering is not a fixed point\",{},{}]]}}", json_str(&t2), json_str(&t1))
                     } else {
-                        format!("{{\"ok\":{}}}", json_str(&t1))
+                        format!("{{\"ok\":3,\"cls\":{}}}", json_str(&kind))
                     }
                 }
             }
         }
     }
+}
+
+fn trunc(s: &str) -> String {
+    if s.len() <= 300 { return s.to_string(); }
+    let mut e = 300;
+    while !s.is_char_boundary(e) { e -= 1; }
+    format!("{}…", &s[..e])
 }
